@@ -4,7 +4,7 @@
 # worktree of /repo: applies, builds, runs the repository's full test suite, then runs our check against it.
 # Writes /tmp/seedres/<ID>-<n>/{build.log,tests.log,check.log,summary.txt}
 set -u
-name=$1; tier=${2:-quick}; id=${name%%-*}
+name=$1; tier=${2:-quick}; id=${CHECK_ID:-${name%%-*}}
 src=/tmp/seed/$name; wt=/tmp/sv/$name; res=/tmp/seedres/$name
 mkdir -p $res /tmp/sv
 git -C /repo worktree remove --force $wt 2>/dev/null
